@@ -46,6 +46,13 @@ func VH_C01_ResetCtx() {
 	if symBool() {
 		old.env = &Environment{}
 	}
+	if symBool() {
+		old.lastLoadedTemplate = &Template{name: "stale/dir/template"}
+	}
+	if symBool() {
+		old.blockChain = map[string][][]Node{"b": {{NewTextNode("stale", 1)}}}
+		old.blockLevel = 2
+	}
 	renderContextPool.Put(old)
 	ctx := NewRenderContext(e.environment, map[string]interface{}{"k": 1}, e)
 	symCover("got")
@@ -60,5 +67,7 @@ func VH_C01_ResetCtx() {
 	symAssert(ctx.blocks != nil && ctx.parentBlocks != nil && ctx.macros != nil && ctx.context != nil, "maps-usable")
 	symAssert(!ctx.extending && !ctx.inParentCall && !ctx.sandboxed, "flags-reset")
 	symAssert(ctx.parent == nil && ctx.currentBlock == nil, "pointers-reset")
+	symAssert(ctx.lastLoadedTemplate == nil, "template-reference-reset")
+	symAssert(len(ctx.blockChain) == 0 && ctx.blockLevel == 0, "block-chain-reset")
 	symAssert(ctx.env == e.environment && ctx.engine == e, "environment-set")
 }
